@@ -63,13 +63,31 @@ def build_finder(cfg):
     else:
         basis = b
     f = CS.CircuitFinderSat(TruthTableModel(tt), cfg["r"], basis=basis, need_normalized=cfg.get("norm", False))
+    from cirbo.synthesis import exception as EX
+
     for con in cfg.get("constraints", []):
-        if con[0] == "fix":
-            _, g, first, second, tname = con
-            f.fix_gate(g, first_predecessor=first, second_predecessor=second, gate_type=getattr(G, tname) if tname else None)
-        else:
-            f.forbid_wire(con[1], con[2])
+        try:
+            if con[0].startswith("fix"):
+                _, g, first, second, tname = con
+                f.fix_gate(g, first_predecessor=first, second_predecessor=second, gate_type=getattr(G, tname) if tname else None)
+            else:
+                f.forbid_wire(con[1], con[2])
+        except (EX.FixGateError, EX.FixGateOrderError, EX.ForbidWireOrderError, EX.GateIsAbsentError):
+            if not con[0].endswith("!"):
+                raise
+            continue  # a call the finder rejected (and the caller caught): it imposes nothing
+        if con[0].endswith("!"):
+            raise RejectedCallAccepted(con)
     return f
+
+
+class RejectedCallAccepted(Exception):
+    """A deliberately ill-ordered constraint call was not rejected: the configuration says nothing then."""
+
+
+def imposed(cfg):
+    """The constraints that were imposed (calls the finder rejects impose nothing)."""
+    return [c for c in cfg.get("constraints", []) if not c[0].endswith("!")]
 
 
 def dims(cfg):
@@ -138,7 +156,7 @@ def spec(cfg, sc):
         cons.append(z3.Or(*[z3.And(*[sc.F[(g, i // 2, i % 2)] == (s[i] == "1") for i in range(4)]) for s in allowed]) if allowed else z3.BoolVal(False))
         if cfg.get("norm"):
             cons.append(z3.Not(sc.F[(g, 0, 0)]))
-    for con in cfg.get("constraints", []):
+    for con in imposed(cfg):
         if con[0] == "fix":
             _, g, first, second, tname = con
             if first is not None and second is not None:
@@ -192,7 +210,7 @@ def admissible_problems(cfg, c):
             for h in range(m):
                 if cfg["tt"][h][t] != "*" and bool(val[h]) != bool(cfg["tt"][h][t]):
                     probs.append(f"output {h} is {val[h]} on row {t}, model says {cfg['tt'][h][t]}")
-    for con in cfg.get("constraints", []):
+    for con in imposed(cfg):
         if con[0] == "fix":
             _, g, first, second, tname = con
             if g in preds:
@@ -240,7 +258,32 @@ def key_of(cfg, what):
 HEAD = REPLAY_PRELUDE + "from checks import c06\nfrom cirbo.synthesis.exception import NoSolutionError\n"
 
 
+PRISTINE = {}
+
+
+def stock_bases_problem():
+    """The stock bases are shared by every finder of the process: a search must not edit them."""
+    for b in CS.Basis:
+        now = [getattr(o, "name", str(o)) for o in b.value]
+        if b.name not in PRISTINE:
+            PRISTINE[b.name] = now
+        elif PRISTINE[b.name] != now:
+            return f"Basis.{b.name} was {PRISTINE[b.name]} and is now {now}"
+    return None
+
+
 def check_config(p, cfg, deep):
+    stock_bases_problem()
+    _check_config(p, cfg, deep)
+    prob = stock_bases_problem()
+    if prob:
+        PRISTINE.clear()
+        p.violation(key_of(cfg, "stock-basis-edited"), f"after the search for {cfg}: {prob}",
+                    HEAD + f"cfg={cfg!r}\n" + "c06.stock_bases_problem()\ntry:\n    c06.build_finder(cfg).find_circuit()\nexcept Exception as e:\n    print(type(e).__name__)\n"
+                    "prob=c06.stock_bases_problem()\nprint(prob); sys.exit(1 if prob else 0)\n")
+
+
+def _check_config(p, cfg, deep):
     n, m, r = dims(cfg)
     try:
         finder = build_finder(cfg)
@@ -249,7 +292,7 @@ def check_config(p, cfg, deep):
     except Exception as e:  # noqa: BLE001
         from cirbo.synthesis import exception as EX
 
-        if isinstance(e, (EX.FixGateError, EX.FixGateOrderError, EX.ForbidWireOrderError, EX.GateIsAbsentError)):
+        if isinstance(e, (EX.FixGateError, EX.FixGateOrderError, EX.ForbidWireOrderError, EX.GateIsAbsentError, RejectedCallAccepted)):
             p.count("config_rejected")
             return
         p.violation(key_of(cfg, f"raises:{type(e).__name__}"), f"{cfg} raised {type(e).__name__}: {e}",
@@ -457,6 +500,27 @@ def make_configs(tier, rnd):
         r = rnd.randint(1, 3)
         tt = [[rnd.choice([0, 1, 0, 1, "*"]) for _ in range(1 << n)] for _ in range(rnd.choice([1, 1, 2]))]
         cfgs.append(dict(tt=tt, r=r, basis=rnd.choice(bases + CUSTOM[:3]), norm=rnd.random() < 0.3, constraints=random_constraints(rnd, n, r)))
+    # constraint calls the finder rejects (ill-ordered predecessors, with and without a type); the caller catches the error and goes on
+    for _ in range(120 if thorough else 30):
+        n = rnd.choice([2, 2, 3])
+        r = rnd.randint(1, 3)
+        tt = [[rnd.choice([0, 1, 0, 1, "*"]) for _ in range(1 << n)]]
+        g = rnd.randrange(n, n + r)
+        tname = rnd.choice(list(TYPE_TT)) if rnd.random() < 0.7 else None
+        kind = rnd.choice(["swapped", "lone-first-too-big", "lone-second-too-big", "forbid-backwards"])
+        if kind == "swapped" and g >= 2:
+            a, b = sorted(rnd.sample(range(g), 2))
+            bad = ("fix!", g, b, a, tname)
+        elif kind == "lone-first-too-big":
+            bad = ("fix!", g, rnd.randrange(g, n + r), None, tname)
+        elif kind == "lone-second-too-big":
+            bad = ("fix!", g, None, rnd.randrange(g, n + r), tname)
+        else:
+            bad = ("forbid!", g, rnd.randrange(0, g + 1)) if g > 0 else None
+        if bad is None:
+            continue
+        rest = random_constraints(rnd, n, r)[:1] if rnd.random() < 0.5 else []
+        cfgs.append(dict(tt=tt, r=r, basis=rnd.choice(bases[:3]), constraints=[bad] + rest if rnd.random() < 0.7 else rest + [bad]))
     # a few through the time-limited (forked) solver path
     for c in rnd.sample(cfgs, 12 if thorough else 4):
         cfgs.append(dict(c, time_limit=30))
